@@ -298,6 +298,14 @@ def shard_special_tags(ctx, shard, nshards, maxlen):
             for name in ('script', 'style'):
                 yield {'src': '<%s%s' % (name, frag), 'xml': False}
                 yield {'src': '<a><%s %s><b></b></%s></a>' % (name, frag, name), 'xml': False}
+        # closing tags of special elements in another letter case, with blanks, or missing (every reported range must still read `</name…>`
+        # with the reported name)
+        if shard == 0:
+            for name in ('script', 'style', 'Script'):
+                for closer in ('</%s>' % name.upper(), '</%s>' % name.capitalize(), '</%s >' % name, '</%s' % name, '< /%s>' % name, ''):
+                    for body in ('', 'x', '"<b>"', '<p>'):
+                        for xml in (False, True):
+                            yield {'src': '<a><%s>%s%s<p>t</p></a>' % (name, body, closer), 'xml': xml}
     ctx.run_cases('html-x', gen())
 
 
